@@ -1005,11 +1005,6 @@ theorem partition_outcome_bytes (r : Bool) (len : Nat) (hlen : (len : Int) < 922
     | .exit | .panic | .hang => False :=
   partition_outcome r len hlen (Utf8.norm bs)
 
-/-- the C03 predicate on an answer of a raw-input model that makes no claim for some inputs -/
-def GoodOpt : Option (Outcome Aln) → Prop
-  | some r => Good r
-  | none => True
-
 /-- **Clustal (row-index repair) on the raw input**: the full C03 statement for ALL byte strings (no exception: the keyword
 test of the model upper-cases rune-wise, U+0131 / U+017F included) and all options -/
 theorem clustal_outcome_bytes (o : POpts) (bs : List Byte) : Good (Clustal.parseBytes true o bs) :=
@@ -1027,29 +1022,29 @@ theorem stockholm_outcome_bytes (o : POpts) (bs : List Byte) : Good (Stockholm.p
 example : Stockholm.parseBytes true true {} [35, 32, 0xC5, 0xBF, 116, 111, 99, 107, 104, 111, 108, 109, 32, 49, 46, 48, 10, 97, 32, 65, 67, 10, 47, 47, 10] =
     .ok ⟨1, 2, [([97], [65, 67])]⟩ := by decide
 
-/-- **Nexus (comment and empty-row repairs) on the raw input**: likewise -/
+/-- **Nexus (comment and empty-row repairs) on the raw input**: likewise, ALL byte strings without exception -/
 theorem nexus_outcome_bytes (f : Nexus.Facts) (hc : f.commentStopsAtEof = true) (he : f.rejectsEmptyRows = true)
-    (o : POpts) (bs : List Byte) : GoodOpt (Nexus.parseBytes f o bs) := by
-  unfold Nexus.parseBytes; split
-  · trivial
-  · exact nexus_outcome_fixed f hc he o (Utf8.norm bs)
+    (o : POpts) (bs : List Byte) : Good (Nexus.parseBytes f o bs) :=
+  nexus_outcome_fixed f hc he o (Utf8.norm bs)
 
-/-- the claim is made for every ASCII input, and there the raw-input models are the ASCII models -/
+/-- the keywords are recognised through the fold runes: `#NEXUſ\nbegın data;\nmatrıx\na AC\n;\nend;\n`
+(`ſ` = `C5 BF`, `ı` = `C4 B1`) -/
+example : Nexus.parseBytes ⟨true, true, true, true, true, true, true⟩ {}
+    [35, 78, 69, 88, 85, 0xC5, 0xBF, 10, 98, 101, 103, 0xC4, 0xB1, 110, 32, 100, 97, 116, 97, 59, 10,
+     109, 97, 116, 114, 0xC4, 0xB1, 120, 10, 97, 32, 65, 67, 10, 59, 10, 101, 110, 100, 59, 10] =
+    .ok ⟨1, 2, [([97], [65, 67])]⟩ := by decide
+
+/-- on an ASCII input the raw-input models are the ASCII models -/
 theorem parseBytes_ascii_claim (bs : List Byte) (h : allAscii bs = true) :
     (∀ c o, Clustal.parseBytes c o bs = Clustal.parse c o bs) ∧
     (∀ m e o, Stockholm.parseBytes m e o bs = Stockholm.parse m e o bs) ∧
-    (∀ f o, Nexus.parseBytes f o bs = some (Nexus.parse f o bs)) ∧
+    (∀ f o, Nexus.parseBytes f o bs = Nexus.parse f o bs) ∧
     (∀ f len, Partition.parseBytes f len bs = Partition.parse f len bs) := by
   have hn := Gv.Proofs.Utf8Norm.norm_of_ascii bs h
-  have hf : Utf8.hasFoldRune bs = false := Gv.Proofs.Utf8Norm.hasFoldRune_ascii bs h
   refine ⟨?_, ?_, ?_, ?_⟩
   · intro c o; simp [Clustal.parseBytes, hn]
   · intro m e o; simp [Stockholm.parseBytes, hn]
-  · intro f o; simp [Nexus.parseBytes, hf, hn]
+  · intro f o; simp [Nexus.parseBytes, hn]
   · intro f len; simp [Partition.parseBytes, hn]
-
-/-- the claim is made beyond ASCII: `#NEXUS\n\xff€\n` -/
-example : (Nexus.parseBytes ⟨true, true, true, true, true, true, true⟩ {} [35, 78, 69, 88, 85, 83, 10, 0xFF, 0xE2, 0x82, 0xAC, 10]).isSome = true := by
-  decide
 
 end Gv.Props.C03
